@@ -205,7 +205,7 @@ def key_ok(cfg, k):
     if is_dir(cfg):
         name = fname(k)[1]
         if isinstance(name, str):
-            if '/' in name or '\x00' in name or len(name.encode('utf-8', 'surrogatepass')) > 200 or name in ('.', '..'):
+            if '/' in name or '\x00' in name or len(name.encode('utf-8', 'surrogatepass')) > 253 or name in ('.', '..'):
                 return False
             if name.startswith('.I_'):
                 return False
